@@ -70,6 +70,7 @@ for n in ["MAX_COMPONENTS", "JPEG_MAX_DIMENSION"]:
 
 # ---------------------------------------------------------------- jchuff.c
 jchuff = strip_comments(rd("jchuff.c"))
+jchuff = re.sub(r"\n[ \t]*\\(?=\n)", "", jchuff)      # macro lines that held only a comment
 consts["BUFSIZE"] = ev(define(jchuff, "BUFSIZE", "jchuff.c"), "BUFSIZE")
 m = re.search(r"#if \(defined\(SIZEOF_SIZE_T\) && SIZEOF_SIZE_T == 8\)[^\n]*\\?\n[^\n]*\n#define BIT_BUF_SIZE\s+(\d+)\s*\n"
               r"#elif[^\n]*\n#define BIT_BUF_SIZE\s+(\d+)", jchuff)
@@ -105,7 +106,7 @@ consts["MAX_COEF_BITS_ADD"] = k1
 consts["DC_EXTRA_BITS"] = d1
 # the PUT_CODE / PUT_BITS structure of encode_one_block the byte-count model mirrors
 for pat, what in [(r"#define PUT_BITS\(code, size\) \{ \\\s*free_bits -= size; \\\s*if \(free_bits < 0\) \\\s*PUT_AND_FLUSH\(code, size\) \\\s*else \\\s*put_buffer = \(put_buffer << size\) \| code; \\\s*\}", "PUT_BITS"),
-                  (r"#define PUT_CODE\(code, size\) \{ \\\s*temp &= \(\(\(JLONG\)1\) << nbits\) - 1; \\\s*temp \|= code << nbits; \\\s*nbits \+= size; \\\s*PUT_BITS\(temp, nbits\) \\\s*\}", "PUT_CODE"),
+                  (r"#define PUT_CODE\(code, size\) \{ \\\s*(?:if \(\(size\) == 0\) \\\s*ERREXIT\(state->cinfo, JERR_HUFF_MISSING_CODE\); \\\s*)?temp &= \(\(\(JLONG\)1\) << nbits\) - 1; \\\s*temp \|= code << nbits; \\\s*nbits \+= size; \\\s*PUT_BITS\(temp, nbits\) \\\s*\}", "PUT_CODE"),
                   (r"free_bits \+= BIT_BUF_SIZE; \\\s*put_buffer = code;", "PUT_AND_FLUSH"),
                   (r"buffer -= -2 \+ \(\(JOCTET\)\(b\) < 0xFF\);", "EMIT_BYTE"),
                   (r"while \(r >= 16 \* 16\) \{ \\\s*r -= 16 \* 16; \\\s*PUT_BITS\(actbl->ehufco\[0xf0\], actbl->ehufsi\[0xf0\]\)", "ZRL loop"),
@@ -114,6 +115,13 @@ for pat, what in [(r"#define PUT_BITS\(code, size\) \{ \\\s*free_bits -= size; \
                   (r"if \(r > 0\) \{\s*PUT_BITS\(actbl->ehufco\[0\], actbl->ehufsi\[0\]\)", "EOB")]:
     if not re.search(pat, jchuff):
         die("jchuff.c: %s macro/statement no longer has the modelled form" % what)
+# F17 fix: PUT_CODE reports a symbol without a code
+consts["MISSING_CODE_CHECK"] = 1 if re.search(
+    r"#define PUT_CODE\(code, size\) \{ \\\s*if \(\(size\) == 0\) \\\s*ERREXIT\(state->cinfo, JERR_HUFF_MISSING_CODE\);", jchuff) else 0
+# F15 fix: the SIMD path checks the coefficient range in C before calling the SIMD encoder
+consts["SIMD_RANGE_PRECHECK"] = 1 if re.search(
+    r"int max_coef = \(1 << \(state->cinfo->data_precision \+ (\d+)\)\) - 1;.*?if \(temp > 2 \* max_coef \+ 1\)\s*ERREXIT\(state->cinfo, JERR_BAD_DCT_COEF\);"
+    r".*?temp2 \|= temp;.*?if \(temp2 > max_coef\)\s*ERREXIT\(state->cinfo, JERR_BAD_DCT_COEF\);.*?jsimd_huff_encode_one_block\(", jchuff, re.S) else 0
 kl = re.findall(r"kloop\((\d+)\);", jchuff)
 if len(kl) != 63:
     die("jchuff.c: expected 63 kloop() invocations, found %d" % len(kl))
@@ -139,6 +147,9 @@ m = re.search(r"cinfo->restart_interval = \(unsigned int\)MIN\(nominal, (\d+)L\)
 if not m:
     die("jcmaster.c: restart interval clamp MIN(nominal, 65535L) not found")
 consts["RESTART_MAX"] = int(m.group(1))
+# F16 fix: a directly stored restart interval is limited as well
+m2 = re.search(r"cinfo->restart_interval = \(unsigned int\)MIN\(nominal, 65535L\);\s*\}\s*if \(cinfo->restart_interval > (\d+)\)\s*cinfo->restart_interval = (\d+);", jcm)
+consts["RESTART_CLAMP_DIRECT"] = 1 if (m2 and m2.group(1) == m2.group(2) == m.group(1)) else 0
 m = re.search(r"if \(Ss < (\d+) \|\| Ss > (\d+) \|\|\s*Se != 0 \|\| Ah != 0 \|\|\s*Al < 0 \|\| Al >= cinfo->data_precision\)", jcm)
 if not m:
     die("jcmaster.c: lossless scan parameter check (Ss 1..7, Se=Ah=0, Al < precision) not found")
@@ -284,7 +295,7 @@ for k in ["DCTSIZE", "DCTSIZE2", "MAX_COMPONENTS", "MAX_COMPS_IN_SCAN", "C_MAX_B
           "MAX_COEF_BITS_ADD", "DC_EXTRA_BITS", "AHAL_PREC", "MAX_AH_AL_HI", "MAX_AH_AL_LO", "LOSSLESS_PREC_MIN", "LOSSLESS_PREC_MAX",
           "LOSSY_PREC_A", "LOSSY_PREC_B", "RESTART_MAX", "PSV_MIN", "PSV_MAX", "QUANT_MIN", "QUANT_MAX", "QUANT_BASELINE_MAX",
           "QUALITY_MIN", "QUALITY_MAX", "DIVISOR_CLAMP", "DIVISOR_CLAMPED_EVERYWHERE", "ZERO_QUANT_REJECTED",
-          "NCOMP_CHECK_IN_VALIDATE", "REVALIDATE_AFTER_LOSSLESS", "TJ_NUMSAMP", "TJ_NUMCS"]:
+          "NCOMP_CHECK_IN_VALIDATE", "REVALIDATE_AFTER_LOSSLESS", "MISSING_CODE_CHECK", "SIMD_RANGE_PRECHECK", "RESTART_CLAMP_DIRECT", "TJ_NUMSAMP", "TJ_NUMCS"]:
     out.append("Definition g_%s : Z := %d." % (k, consts[k]))
 out.append("\n(* zigzag order of encode_one_block: position 0 and the 63 kloop() arguments *)")
 out.append("Definition g_kloop_order : list Z :=\n  [%s]." % "; ".join(map(str, zz)))
